@@ -31,3 +31,12 @@ package types
 //@   ensures[strings-pass]  t != nil && t.(string) ==> result != nil && result.(string) && result.(as string) == t.(as string)
 //@   ensures[bools-pass]    t != nil && t.(bool) ==> result != nil && result.(bool) && result.(as bool) == t.(as bool)
 //@   modifies nothing
+
+// ConvertValueList: a null among the values is an error; otherwise one converted value per value
+//@ func ConvertValueList
+//@   mode math
+//@   props C03
+//@   loop 0 invariant rangeindex < len(values) && len(jsonValues) == rangeindex + 1 && (forall j int :: {values[j]} 0 <= j && j <= rangeindex ==> values[j] != nil)
+//@   ensures[a-null-is-an-error] (result1 == nil) == (forall v in values :: v != nil)
+//@   ensures[one-per-value] result1 == nil ==> len(result0) == len(values)
+//@   modifies alloc
